@@ -501,6 +501,46 @@ pub fn minimal_json_defaults() -> Result<(), String> {
     Ok(())
 }
 
+/// One generated case of "peers that omit optional fields are still understood" (self-describing encoding).
+pub fn omitted_fields_case(id: u64, body: &Body) -> Result<(), String> {
+    // Cancel without its trace context
+    let txt = format!(r#"{{"Cancel":{{"request_id":{id}}}}}"#);
+    match serde_json::from_str::<ClientMessage<Body>>(&txt) {
+        Ok(ClientMessage::Cancel { trace_context, request_id }) => {
+            if request_id != id || trace_context != tarpc::trace::Context::default() {
+                return Err(format!("{txt} decoded to Cancel{{request_id: {request_id}, trace_context: {trace_context:?}}}"));
+            }
+        }
+        Ok(_) => return Err(format!("{txt} decoded as another variant")),
+        Err(e) => return Err(format!("a Cancel without trace_context does not decode ({txt}): {e}")),
+    }
+    // Request whose context omits the deadline: decodes, keeps id / body / trace context, deadline = now + 10 s
+    let b = serde_json::to_string(body).map_err(|e| e.to_string())?;
+    let full = tarpc::trace::Context { trace_id: tarpc::trace::TraceId::from(7u128), span_id: tarpc::trace::SpanId::from(9u64), sampling_decision: tarpc::trace::SamplingDecision::Sampled };
+    let tc = serde_json::to_string(&full).map_err(|e| e.to_string())?;
+    let txt = format!(r#"{{"Request":{{"context":{{"trace_context":{tc}}},"id":{id},"message":{b}}}}}"#);
+    clock::enable_and_reset();
+    let before = Instant::now();
+    let r = serde_json::from_str::<ClientMessage<Body>>(&txt);
+    let after = Instant::now();
+    clock::disable();
+    match r {
+        Ok(ClientMessage::Request(req)) => {
+            if req.id != id || &req.message != body || req.context.trace_context != full {
+                return Err(format!("a Request without a deadline decoded to different id/body/trace context: {req:?}"));
+            }
+            let lo = before + Duration::from_secs(10);
+            let hi = after + Duration::from_secs(10);
+            if req.context.deadline < lo || req.context.deadline > hi {
+                return Err(format!("a Request without a deadline decoded with a deadline {:?} from now instead of the documented 10 s", req.context.deadline.saturating_duration_since(before)));
+            }
+        }
+        Ok(_) => return Err("a Request without a deadline decoded as another variant".into()),
+        Err(e) => return Err(format!("a Request whose context omits the deadline does not decode: {e}")),
+    }
+    Ok(())
+}
+
 pub fn body_strategy() -> BoxedStrategy<Body> {
     let leaf = prop_oneof![
         Just(Body::Unit),
@@ -604,11 +644,30 @@ impl Prop for C15 {
     fn run_case(&self, sc: &Sc15) -> CaseResult {
         check(sc)
     }
-    fn extra(&self, _tier: Tier, _seed: u64) -> Result<crate::sim::runner::ExtraStats, Violation> {
+    fn extra(&self, tier: Tier, seed: u64) -> Result<crate::sim::runner::ExtraStats, Violation> {
         minimal_json_defaults().map_err(Violation::new)?;
+        // generated: a peer that omits the optional fields is understood for every id / body
+        use proptest::strategy::ValueTree;
+        use proptest::test_runner::{Config, RngSeed, TestRunner};
+        let n = match tier {
+            Tier::Quick => 2_000u64,
+            Tier::Thorough => 50_000,
+        };
+        let mut runner = TestRunner::new(Config { rng_seed: RngSeed::Fixed(seed ^ 0x15), failure_persistence: None, ..Config::default() });
+        let strat = (id_strategy(), body_strategy());
         let mut st = crate::sim::runner::ExtraStats::default();
-        st.evaluations = 1;
-        st.notes.insert("minimal_json_cancel_without_trace_context".into(), json!("decodes to the default context"));
+        for k in 0..n {
+            let (id, body) = strat.new_tree(&mut runner).map_err(|e| Violation::new(format!("generator: {e}")))?.current();
+            omitted_fields_case(id, &body).map_err(|m| {
+                Violation::new(m).with_detail(json!({"id": id.to_string(), "body": body}))
+            })?;
+            st.evaluations += 1;
+            st.nontrivial += 1;
+            if k < 2 {
+                st.samples.push(json!({"omitted_fields_case": {"id": id.to_string(), "body": body}}));
+            }
+        }
+        st.notes.insert("omitted_optional_fields".into(), json!("JSON Cancel without trace_context and JSON Request whose context omits deadline (and trace_context) decode, for generated ids and bodies, to the stated defaults"));
         Ok(st)
     }
 }
